@@ -20,7 +20,7 @@ import (
 
 func TestMain(m *testing.M) {
 	vlib.Rule("C21: histories of 3-14 operations over the names /a /b /s/c /s/d (+ /e as a spare) and up to 3 link identities on a real Filer (leveldb2) through the FilerServer gRPC handlers: " +
-		"plain put (also over a linked name), link by the mount's two-request protocol, write and setattr through any name (CreateEntry or UpdateEntry with the freshly looked-up entry), append, " +
+		"plain put (also over a linked name), link by the mount's two-request protocol, write and setattr through any name (CreateEntry or UpdateEntry with the freshly looked-up entry; chmod keeps mtime), writing a file back to exactly the state last written through one of its names (A-B-A), append, " +
 		"unlink with the mount's isDeleteData=counter<=1 rule and with plain isDeleteData true/false, rename of linked and plain names to free names and onto names of another identity, rename of the directory /s to /t and back, recursive delete of /s or /t with and without data. " +
 		"After every step every name is looked up and listed and the KV record of every identity is read. Non-trivial = some identity had >=2 names and an update, rename, unlink or overwrite went through a name other than the identity's first name. Distinct = distinct written-out history.")
 	vlib.Assume("C21: the client protocols are mirrored from weed/filesys (Link: UpdateEntry(old, id, counter+1) then CreateEntry(new); writes send the entry as just looked up, hard link id and counter included; the link target does not exist). A rename between two names of the same identity is not generated (POSIX makes it a no-op; the filer API has no such notion).")
@@ -65,6 +65,9 @@ type sim struct {
 	hist    []string
 	classes map[string]bool
 	nontriv bool
+	// last[n] is the entry (attributes, chunks, extended) last written through name n
+	// by write/setattr/writeback, verbatim; forgotten when n goes away
+	last map[string]*filer_pb.Entry
 }
 
 func (s *sim) abs(n string) string { return s.root + n }
@@ -149,6 +152,7 @@ func (s *sim) dropName(n string) {
 		delete(s.m.link, n)
 	}
 	delete(s.m.plain, n)
+	delete(s.last, n)
 }
 
 func (m *model) identity(i int) *identity { return m.ids[i] }
@@ -178,7 +182,7 @@ func (s *sim) fail(format string, args ...interface{}) {
 func (s *sim) step(i int) {
 	t, e := s.t, s.e
 	lbl := fmt.Sprintf("s%d", i)
-	kinds := []string{"put", "link", "link", "write", "write", "setattr", "unlink", "unlink", "rename", "rename", "append", "rmdir", "mvdir"}
+	kinds := []string{"put", "link", "link", "write", "write", "setattr", "setattr", "writeback", "writeback", "unlink", "unlink", "rename", "rename", "append", "rmdir", "mvdir"}
 	if len(s.existing()) == 0 {
 		kinds = []string{"put"}
 	}
@@ -203,12 +207,14 @@ func (s *sim) step(i int) {
 		s.clock++
 		mode := uint32(0644)
 		dir, name := fdrv.SplitPath(s.abs(n))
-		err := e.Create(dir, &filer_pb.Entry{Name: name, Attributes: attrs(s.clock, mode, 10*uint64(len(chunks))), Chunks: chunks}, false)
+		sent := &filer_pb.Entry{Name: name, Attributes: attrs(s.clock, mode, 10*uint64(len(chunks))), Chunks: chunks}
+		err := e.Create(dir, sent, false)
 		s.hist = append(s.hist, fmt.Sprintf("put %s [%s] -> %s", n, renderChunks(e, chunks), errStr(err)))
 		if err != nil {
 			s.fail("put %s failed: %v", n, err)
 		}
 		s.dropName(n)
+		s.last[n] = fdrv.CloneEntry(sent)
 		s.m.plain[n] = &content{chunks: renderChunks(e, chunks), mtime: s.clock, mode: mode}
 		s.noteDir(n)
 
@@ -281,7 +287,9 @@ func (s *sim) step(i int) {
 				ent.Attributes.Mtime = s.clock
 			} else {
 				ent.Attributes.FileMode = rapid.SampledFrom([]uint32{0600, 0640, 0755}).Draw(t, lbl+".mode")
-				ent.Attributes.Mtime = s.clock
+				if rapid.Bool().Draw(t, lbl+".touch") {
+					ent.Attributes.Mtime = s.clock // utimes; a plain chmod keeps mtime
+				}
 				if rapid.Bool().Draw(t, lbl+".xattr") {
 					ent.Extended = map[string][]byte{"user.k": []byte(fmt.Sprintf("v%d", s.clock))}
 				}
@@ -294,6 +302,9 @@ func (s *sim) step(i int) {
 			}
 			nc = contentOf(e, ent)
 			desc = fmt.Sprintf("%s(%s) %s [%s] mode=%o mtime=%d ext=%s", kind, via, n, nc.chunks, nc.mode, nc.mtime, nc.ext)
+			if err == nil {
+				s.last[n] = fdrv.CloneEntry(ent)
+			}
 		}
 		s.hist = append(s.hist, desc+" -> "+errStr(err))
 		if err != nil {
@@ -302,6 +313,64 @@ func (s *sim) step(i int) {
 		if idx, ok := s.m.link[n]; ok {
 			s.m.ids[idx].c = nc
 			s.classes[kind+"-through-linked"] = true
+		} else {
+			s.m.plain[n] = &nc
+		}
+
+	case "writeback":
+		// set a file back to exactly the state last written through one of its names
+		// (attributes to the second, chunks, extended attributes), through that name:
+		// e.g. chmod 600 through /b followed by chmod 644 through /a. The entry is sent
+		// as just looked up (current hard link id and counter) with the remembered values.
+		var cands []string
+		for _, n := range s.existing() {
+			rem := s.last[n]
+			if rem == nil {
+				continue
+			}
+			cur := s.m.plain[n]
+			if idx, ok := s.m.link[n]; ok {
+				cur = &s.m.ids[idx].c
+			}
+			if cur != nil && *cur != contentOf(e, rem) {
+				cands = append(cands, n)
+			}
+		}
+		if len(cands) == 0 {
+			s.hist = append(s.hist, "skip(writeback: no earlier state to restore)")
+			return
+		}
+		n := rapid.SampledFrom(cands).Draw(t, lbl+".name")
+		s.throughOther(n)
+		rem := s.last[n]
+		ent, lerr := e.Lookup(s.abs(n))
+		if lerr != nil || ent == nil {
+			s.fail("lookup %s before writeback failed: %v", n, lerr)
+		}
+		via := rapid.SampledFrom([]string{"create", "create", "update"}).Draw(t, lbl+".via")
+		keep := fdrv.CloneEntry(rem)
+		ent.Attributes = keep.Attributes
+		ent.Chunks = keep.Chunks
+		ent.Extended = keep.Extended
+		dir, _ := fdrv.SplitPath(s.abs(n))
+		var err error
+		if via == "update" {
+			err = e.Update(dir, ent)
+		} else {
+			err = e.Create(dir, ent, false)
+		}
+		nc := contentOf(e, ent)
+		s.hist = append(s.hist, fmt.Sprintf("writeback(%s) %s [%s] mode=%o mtime=%d ext=%s -> %s", via, n, nc.chunks, nc.mode, nc.mtime, nc.ext, errStr(err)))
+		if err != nil {
+			s.fail("writeback failed: %v", err)
+		}
+		s.last[n] = fdrv.CloneEntry(ent)
+		if idx, ok := s.m.link[n]; ok {
+			if len(s.m.ids[idx].names) >= 2 {
+				s.classes["writeback-through-linked"] = true
+				s.nontriv = true
+			}
+			s.m.ids[idx].c = nc
 		} else {
 			s.m.plain[n] = &nc
 		}
@@ -377,6 +446,7 @@ func (s *sim) step(i int) {
 		}
 		// the destination name is replaced; the source name moves
 		s.dropName(dst)
+		delete(s.last, src)
 		if idx, ok := s.m.link[src]; ok {
 			id := s.m.ids[idx]
 			delete(id.names, src)
@@ -459,6 +529,7 @@ func (s *sim) step(i int) {
 		}
 		for _, leaf := range []string{"/c", "/d"} {
 			src, dst := from+leaf, to+leaf
+			delete(s.last, src)
 			if idx, ok := s.m.link[src]; ok {
 				id := s.m.ids[idx]
 				if len(id.names) >= 2 {
@@ -598,7 +669,7 @@ func keys(m map[string]bool) []string {
 func runHistory(t *rapid.T) {
 	e := fdrv.Get()
 	root, seq := e.NextCase()
-	s := &sim{t: t, e: e, root: root, seq: seq, classes: map[string]bool{},
+	s := &sim{t: t, e: e, root: root, seq: seq, classes: map[string]bool{}, last: map[string]*filer_pb.Entry{},
 		m: &model{plain: map[string]*content{}, link: map[string]int{}, dirs: map[string]bool{}}}
 	steps := rapid.IntRange(3, 14).Draw(t, "steps")
 	for i := 0; i < steps; i++ {
@@ -616,6 +687,8 @@ func runHistory(t *rapid.T) {
 		first = "rename-linked"
 	case s.classes["put-over-linked"]:
 		first = "overwrite-linked"
+	case s.classes["writeback-through-linked"]:
+		first = "writeback-linked"
 	case s.classes["two-identities"]:
 		first = "two-identities"
 	case s.classes["rmdir-with-linked"]:
